@@ -19,7 +19,7 @@ class C04(HistProp):
 
     def histories(self, tier, rng):
         hs = hist.exhaustive(4 if tier == 'thorough' else 3)
-        n = 1500 if tier == 'thorough' else 150
+        n = 6000 if tier == 'thorough' else 150
         for i in range(n):
             hs.append(hist.history(rng, 200 if i % 4 == 0 else 60))
         # rule-following histories in which the allocator refuses a growth request: the failed insertion must not disturb any count
